@@ -264,3 +264,29 @@ Lemma blinding_inv_both :
     (forall u ui, (u * ui) mod rk_n k = 1 -> blind_inv k (blind_create k u ui)) /\
     (forall b, blind_inv k b -> blind_inv k (blind_update k b)).
 Proof. intros k H. split; [exact (blind_create_inv k H)|exact (blind_update_inv k H)]. Qed.
+
+(* ---- why the pair must be read (and replaced) atomically ------------------------------- *)
+Lemma torn_is_op k b m : raw_private_op_torn k (bl_blinder b) (bl_unblinder b) m = fst (raw_private_op k b m).
+Proof. reflexivity. Qed.
+
+(* correct whenever the two values actually used satisfy the invariant ... *)
+Lemma torn_correct_if_consistent k (Hs : crt_shape_ok k = true)
+      (Hed : forall x, 0 <= x < rk_n k -> (x ^ rk_e k) ^ rk_d k mod rk_n k = x)
+      (HdP : forall x, 0 <= x < rk_p k -> x ^ rk_dP k mod rk_p k = x ^ rk_d k mod rk_p k)
+      (HdQ : forall x, 0 <= x < rk_q k -> x ^ rk_dQ k mod rk_q k = x ^ rk_d k mod rk_q k) bl ub m :
+  (bl * ub ^ rk_e k) mod rk_n k = 1 -> 0 <= m < rk_n k ->
+  raw_private_op_torn k bl ub m = m ^ rk_d k mod rk_n k.
+Proof.
+  intros Hinv Hm.
+  change (raw_private_op_torn k bl ub m) with (fst (raw_private_op k {| bl_blinder := bl; bl_unblinder := ub |} m)).
+  apply (raw_private_op_correct k Hs Hed HdP HdQ); assumption.
+Qed.
+
+(* ... and wrong otherwise: blinder taken AFTER another thread's update, unblinder BEFORE it
+   (toy key, pair created from u = 7): the result is not m^d mod n *)
+Lemma torn_read_breaks :
+  let b := blind_create toy_key 7 462 in
+  let b' := blind_update toy_key b in
+  raw_private_op_torn toy_key (bl_blinder b') (bl_unblinder b) 2 <> powmod 2 (rk_d toy_key) (rk_n toy_key) /\
+  raw_private_op_torn toy_key (bl_blinder b) (bl_unblinder b) 2 = powmod 2 (rk_d toy_key) (rk_n toy_key).
+Proof. cbv zeta. split; vm_compute; [discriminate|reflexivity]. Qed.
